@@ -114,10 +114,22 @@ def run_graph(g):
             for p in spec.entrypoints[first]:
                 vals.setdefault(p, "in." + p)
         r = RUNNER.run(g, vals, error_handling="continue", on_internal_override="ignore")
-        return (r.status.value, tuple(sorted((k, str(v)) for k, v in r.values.items())),
-                type(r.error).__name__ if r.error is not None else None)
+        first = (r.status.value, tuple(sorted((k, str(v)) for k, v in r.values.items())),
+                 type(r.error).__name__ if r.error is not None else None)
     except Exception as e:  # noqa: BLE001
         return _exc(e)
+    # ... and once more with a RUN-TIME selection of the graph's last output (the same values): whatever the runner
+    # memoises per selection belongs to this object alone
+    try:
+        outs = list(g.outputs)
+        if not outs:
+            return first
+        r2 = RUNNER.run(g, vals, select=[outs[-1]], error_handling="continue", on_internal_override="ignore")
+        second = (r2.status.value, tuple(sorted((k, str(v)) for k, v in r2.values.items())),
+                  type(r2.error).__name__ if r2.error is not None else None)
+    except Exception as e:  # noqa: BLE001
+        second = _exc(e)
+    return (first, second)
 
 
 def run_node(n):
